@@ -544,21 +544,71 @@ def c_semimdp(prob, par, seed, obj=None):
         mdp, s0, opts = _options(prob, par["options"])
         smdp = SemiMarkovDecisionProcess(mdp=mdp, options=opts, n_option_simulations=par.get("n", 6), seed=seed)
         obj = (smdp, s0, opts)
-    smdp, s0, opts = obj        # reuse: the same semi-MDP and option objects are queried again
-    out = {}
-    for i, o in enumerate(opts):
-        d = smdp.next_state_transit_time_reward_dist(s0, o)
-        out[i] = {"nstr": dict(d.items()), "ns": dict(smdp.next_state_dist(s0, o).items()),
-                  "ecr": smdp.expected_cumulative_reward(s0, o)}
+        reused = False
+    else:
+        reused = True
+    smdp, s0, opts = obj[:3]
+
+    def query(sm, keep):
+        out = {}
+        for i, o in enumerate(opts):
+            d = sm.next_state_transit_time_reward_dist(s0, o)
+            keep.append(d)
+            out[i] = {"nstr": dict(d.items()), "ns": dict(sm.next_state_dist(s0, o).items()),
+                      "ecr": sm.expected_cumulative_reward(s0, o)}
+        return out
+    if not reused:
+        returned = []
+        out = query(smdp, returned)
+        return {"main": out, "aux": {}, "obj": (smdp, s0, opts, returned)}
+    # reuse = two object histories that must end in the result of a fresh object with these
+    # parameters and this seed:
+    # (a) the same semi-MDP and option objects are queried again after the caller has emptied the
+    #     distributions that the first query returned (the caller owns what it was handed);
+    for d in obj[3]:
+        try:
+            d.clear()
+        except Exception:                               # noqa: BLE001
+            pass
+    same_object = query(smdp, [])
+    # (b) a long-lived semi-MDP that was first used with another seed and number of simulations
+    #     and whose (public, non-frozen dataclass) fields are then set to this key's values
+    other = SemiMarkovDecisionProcess(mdp=smdp.mdp, options=opts, n_option_simulations=par.get("n", 6) + 3,
+                                      seed=(seed + 12345) % 2 ** 32)
+    query(other, [])
+    other.seed, other.n_option_simulations = seed, par.get("n", 6)
+    reseeded = query(other, [])
+    out = same_object if canon(same_object) == canon(reseeded) else {"same-object": same_object, "re-seeded-object": reseeded}
     return {"main": out, "aux": {}, "obj": obj}
 
 
-def c_implicit(prob, par, seed):
+def c_implicit(prob, par, seed, obj=None):
     from msdm.core.distributions.distributions import ImplicitDistribution
     labels = ["alpha", "beta", "gamma", "delta"]
 
     def fn(rng):
         return (rng.choice(labels), rng.randint(0, 2))
+
+    if par.get("mode") == "explicit":
+        # "equally seeded generator": the distribution (own seed par["pseed"], None = unseeded), its
+        # conditioned and its marginalised versions are sampled with an explicit random.Random(seed);
+        # the draws are a function of that generator only.  Reuse: the same three objects again,
+        # after the parent and a sibling have been used in between (their private stream moves,
+        # which must not matter to draws made with an explicit generator).
+        if obj is None:
+            parent = ImplicitDistribution(fn, n_samples=par.get("n", 40), _seed=par.get("pseed"))
+            obj = (parent, parent.condition(lambda e: e[1] > 0), parent.marginalize(lambda e: e[0]))
+        else:
+            parent = obj[0]
+            for _ in range(5):
+                parent.sample()
+            sibling = parent.condition(lambda e: e[0] in ("alpha", "beta"))
+            g = random.Random(99)
+            for _ in range(7):
+                sibling.sample(rng=g)
+        draws = lambda d: (lambda g: [d.sample(rng=g) for _ in range(12)])(random.Random(seed))
+        out = {"parent": draws(obj[0]), "conditioned": draws(obj[1]), "marginal": draws(obj[2])}
+        return {"main": out, "aux": {}, "obj": obj}
 
     def mk():
         return ImplicitDistribution(fn, n_samples=par.get("n", 40), _seed=seed)
@@ -641,8 +691,10 @@ COMPONENTS = {
     # component: (function, call site named in signatures, seeding idiom in spec/C13_Seeding.tla)
     # A function that returns "obj" (the planner / learner / semi-MDP object, which re-seeds from its
     # seed parameter on every call in the code as it stands) is also run a second time on that same
-    # object (reuse=1).  Not reused, because they continue a stream by design: ImplicitDistribution
-    # (its cached _rng is a stream), roll-outs and evaluate_on (the caller owns the generator passed
+    # object (reuse=1); for the semi-MDP the second call also covers object histories (returned
+    # distributions emptied by the caller, fields re-assigned), see c_semimdp.  Not reused, because
+    # they continue a stream by design: ImplicitDistribution used through its own cached _rng (but
+    # its draws with an explicit generator are reused, mode="explicit"), roll-outs and evaluate_on (the caller owns the generator passed
     # as rng=; "equally seeded generator" means a fresh one).
     "LAOStar": (c_laostar, "LAOStar.plan_on", "private", True),
     "LRTDP": (c_lrtdp, "LRTDP.plan_on", "private", True),
@@ -664,11 +716,18 @@ COMPONENTS = {
 # worker process: runs the plan under this interpreter's hash seed and logs events
 # =============================================================================================
 
+def is_reusable(case):
+    """Second call on the same object (reuse = 1) is logged and judged for this case."""
+    if case["comp"] == "Implicit":
+        return case["par"].get("mode") == "explicit"
+    return COMPONENTS[case["comp"]][3]
+
+
 def run_case(case, seeds, perts):
     fn = COMPONENTS[case["comp"]][0]
     evs = []
     t0 = time.time()
-    reusable = COMPONENTS[case["comp"]][3]
+    reusable = is_reusable(case)
     for seed in seeds:
         obj = None
         # fresh object per slot; then (reuse=1) the object of the last slot is called once more
@@ -792,6 +851,7 @@ def make_plan(tier, seed):
                 C("BPI", "tiger"), C("BPI", "loadunload"), C("GA", "tiger"), C("GA", "loadunload"),
                 C("SemiMDP", "lineworld", options="named"), C("SemiMDP", "lineworld", options="unnamed"),
                 C("Implicit", "-"), C("Implicit", "-", n=7),
+                C("Implicit", "-", mode="explicit"), C("Implicit", "-", mode="explicit", pseed=11),
                 C("POMDPRollout", "tiger"), C("POMDPRollout", "tiger", policy="qmdp"),
                 C("POMDPRollout", "tiger", given=1), C("POMDPRollout", "loadunload"),
             ]
@@ -864,7 +924,7 @@ def merge(plan, outs):
                     e["proc"] = pi + 1
                     evs.append(e)
         traces.append({"case": case_id(case), "comp": case["comp"], "idiom": idiom, "lk": lk, "multi": multi,
-                       "seeds": seeds, "perts": plan["perts"], "reuse": 1 if COMPONENTS[case["comp"]][3] else 0,
+                       "seeds": seeds, "perts": plan["perts"], "reuse": 1 if is_reusable(case) else 0,
                        "procs": [{"hs": str(o["hashseed"]), "lo": o["cases"][ci]["lo"]} for o in outs],
                        "ev": evs})
     return traces
@@ -884,8 +944,9 @@ CLAUSE_TEXT = {"rerun": "two runs in the same process under the same prior state
                "global": "the result changes with the prior state of the process-global generators",
                "hash": "the result differs between processes started with different PYTHONHASHSEED",
                "isolated": "the seeded run changed the state of a process-global generator",
-               "reuse": "calling the same planner / learner / semi-MDP object a second time (same problem, same prior state "
-                        "of the global generators) returned a different result than its first call"}
+               "reuse": "a second use of the same planner / learner / semi-MDP / distribution object - or of a long-lived object "
+                        "with a call history that ends in the same parameters and seed - (same problem, same prior state of the "
+                        "global generators) returned a different result than a fresh object"}
 
 
 def validate(ctx, plan, traces, tag, *, strict=True):
@@ -982,8 +1043,8 @@ def judge(ctx, plan, traces, summaries):
 # MC of the seeding idioms
 # ---------------------------------------------------------------------------------------------
 IDIOMS = ["private", "threaded", "stable_obj_seed", "seed_or_draw_numpy", "seed_or_draw_torch", "unthreaded_first_draw",
-          "obj_hash", "obj_identity", "generator_in_init"]
-REUSE_IDIOMS = ["private", "threaded", "stable_obj_seed", "generator_in_init"]
+          "obj_hash", "obj_identity", "generator_in_init", "memo_per_object"]
+REUSE_IDIOMS = ["private", "threaded", "stable_obj_seed", "generator_in_init", "memo_per_object"]
 MC_CFG = "INIT Init\nNEXT Next\nCHECK_DEADLOCK FALSE\nINVARIANT Emit\nINVARIANT PredictionSound\n"
 PROP_CFG = ("INIT Init\nNEXT Next\nCHECK_DEADLOCK FALSE\nINVARIANT Isolated\nINVARIANT Repeatable\n"
             "INVARIANT GlobalIndependent\nINVARIANT HashIndependent\nINVARIANT Reusable\n")
@@ -996,7 +1057,7 @@ def py_idiom_table():
 
     def execute(idiom, seed, lk, multi, proc, pre, addr):
         post = dict(pre)
-        if idiom in ("private", "threaded", "generator_in_init"):
+        if idiom in ("private", "threaded", "generator_in_init", "memo_per_object"):
             return ("seed", seed), post
         if idiom == "stable_obj_seed":
             return ("derived from text", seed), post
@@ -1041,7 +1102,8 @@ def py_idiom_table():
                     if idiom in REUSE_IDIOMS:       # second call on the object of a fresh run
                         for p1, pre1, a1 in runs:
                             first, _ = execute(idiom, seed, lk, multi, p1, pre1, a1)
-                            second = first + ("stream continued",) if idiom == "generator_in_init" else first
+                            second = first + ("stream continued",) if idiom == "generator_in_init" else \
+                                ("result memoised under other parameters",) if idiom == "memo_per_object" else first
                             if second != first:
                                 fails.add("reuse")
                     key = (idiom, 1 if seed == 0 else 0, lk, multi)
@@ -1070,7 +1132,7 @@ def model_check(ctx):
     cex = {}
     expected = {"good": None, "seed_or_draw_numpy": "Isolated", "seed_or_draw_torch": "Isolated",
                 "unthreaded_first_draw": "Isolated", "obj_hash": "HashIndependent", "obj_identity": "Repeatable",
-                "generator_in_init": "Reusable"}
+                "generator_in_init": "Reusable", "memo_per_object": "Reusable"}
     from concurrent.futures import ThreadPoolExecutor
     with ThreadPoolExecutor(max_workers=3) as ex:
         futs = {sel: ex.submit(run_tlc, ctx.workdir / f"mc-{sel}", MODULE, PROP_CFG,
